@@ -170,6 +170,11 @@ func buildPool() []poolEntry {
 			r, _ := starlark.Call(&starlark.Thread{}, m, nil, nil)
 			return r
 		}),
+		f(`"ab".codepoints()`, func(*cctx) starlark.Value { // an iterable with no Len
+			m, _ := starlark.String("ab").Attr("codepoints")
+			r, _ := starlark.Call(&starlark.Thread{}, m, nil, nil)
+			return r
+		}),
 		v("json", sjson.Module), v("1h", stime.Duration(gotime.Hour)),
 		v("time", stime.Time(gotime.Unix(1700000000, 5).UTC())),
 		// unbounded-work values
@@ -307,7 +312,7 @@ func newCallMode(o *opts) *callMode {
 	}
 	for i, p := range m.pool {
 		switch p.name {
-		case "None", "1<<62", "-(1<<63)", `""`, `"a b"`, "nan", "l=[l]", "f1":
+		case "None", "1<<62", "-(1<<63)", `""`, `"a b"`, "nan", "l=[l]", "f1", "[1, 2, 3]", `"ab".codepoints()`, "{}", "-1":
 			m.edge = append(m.edge, i)
 		}
 	}
@@ -431,7 +436,58 @@ func (m *callMode) Run(i int64) string {
 	if v == nil {
 		return "panic:builtin returned nil value and nil error"
 	}
+	// the result must be a well-formed value: no nil element anywhere, and the
+	// operations the interpreter applies to every value must not crash on it
+	if where := findNil(v, 0); where != "" {
+		return "panic:built-in returned a value containing a nil element (" + where + ")"
+	}
+	v.Freeze()
+	_, _ = v.Hash()
+	_ = v.Truth()
+	_ = v.Type()
+	_ = v.String()
 	return "value"
+}
+
+// findNil looks for a Go-nil Value inside a returned container.
+func findNil(v starlark.Value, depth int) string {
+	if depth > 4 {
+		return ""
+	}
+	switch x := v.(type) {
+	case starlark.Tuple:
+		for i, e := range x {
+			if e == nil {
+				return fmt.Sprintf("tuple index %d", i)
+			}
+			if w := findNil(e, depth+1); w != "" {
+				return w
+			}
+		}
+	case *starlark.List:
+		for i := 0; i < x.Len() && i < 64; i++ {
+			e := x.Index(i)
+			if e == nil {
+				return fmt.Sprintf("list index %d", i)
+			}
+			if w := findNil(e, depth+1); w != "" {
+				return w
+			}
+		}
+	case *starlark.Dict:
+		for i, it := range x.Items() {
+			if i >= 64 {
+				break
+			}
+			if it[0] == nil || it[1] == nil {
+				return "dict item"
+			}
+			if w := findNil(it[1], depth+1); w != "" {
+				return w
+			}
+		}
+	}
+	return ""
 }
 
 func (m *callMode) isHuge(cc callCase) bool {
